@@ -23,7 +23,7 @@ type authRow struct {
 	Args     func(d *AuthGrid, w *World) []any
 	// Req lists alternative witness sets (any one suffices); nil = nobody can make it succeed
 	// in this state, "any" = no witness needed.
-	Req  [][]string
+	Req [][]string
 	// Kind: "" mutating, "update", "safe", "verify"; "redesignate" = mutating, measured in the
 	// block right after the NeoFSAlphabet role went to the auditor key alone
 	Kind string
